@@ -51,6 +51,11 @@ def run(run):
         _r6_join(run, st)
         _r2_r3_producer(run, st, work_queues)
         _worker_rules(run, st, work_queues)
+    # the multi-image stages build their work items as zip(collection.images(), descriptors): the loader hands out one item per
+    # input in both views (C20.R6), or every later item is paired with the wrong descriptor and the last one is never dispatched
+    from . import C20 as c20
+    common.delegate(run, "C03.R2", "C20", lambda sub: c20._r6_one_item_per_input(sub), only_rules={"C20.R6"},
+                    note="premise: the item source yields one item per input")
     # the dispatch loops run inside the package's generator context managers (progress bars): one that catches an exception of the
     # with-body abandons the loop at that item and lets the stage shut down normally - the remaining items are never handed out
     from . import C19 as c19
